@@ -9,13 +9,16 @@ import (
 	"encoding/json"
 	"errors"
 	"fmt"
+	"io"
 	"math/rand"
 	"net"
+	"os"
 	"runtime"
 	"strconv"
 	"strings"
 	"sync"
 	"sync/atomic"
+	"syscall"
 	"testing/synctest"
 	"time"
 )
@@ -42,6 +45,8 @@ type Cfg struct {
 	ErrKind int    `json:"-"`      // what a failed write returns: 0 plain error, 1 temporary net.Error, 2 timeout net.Error
 	Dest    int    `json:"-"`      // destination variant (broadcast / unicast / scoped link-local / scoped multicast)
 	BigReq  int    `json:"-"`      // octets of vendor information added to the request (0: none): requests beyond one Ethernet frame
+	RFault  bool   `json:"rfault"` // the schedule may make a read on the open connection fail
+	ReadErrKind int `json:"-"`     // what ReadFrom returns once the connection is closed, and what a failed read on the open connection returns
 	Raw     bool   `json:"-"`      // DHCPv4 only: the client runs over its raw-socket layer (BroadcastRawUDPConn): datagrams arrive and leave as IPv4/UDP frames
 }
 
@@ -114,6 +119,8 @@ type Sim struct {
 	curRx       int             // the datagram the receive loop is working on
 	entQ        map[int][]int   // per entry: the datagrams delivered to its channel and not yet taken out, in order
 	lastWoken   map[string]int  // per role: the datagram its last receive wake-up took out
+	closeIn     map[string]bool // roles whose next matcher invocation calls Close before it answers
+	readFaults  int
 }
 
 var gateEvents = map[string]bool{"SendPreLock": true, "SendPreTx": true, "Wake": true, "CancelPre": true,
@@ -169,6 +176,9 @@ func (s *Sim) hook(ev string, args ...any) {
 
 // progress counts recorded events of all runs: the real-time watchdog of TestSim reads it
 var progress atomic.Int64
+
+// how often the schedulers used the rarer environment actions (reported with the run's statistics)
+var nCloseFrom, nReadFault atomic.Int64
 
 func (s *Sim) record(role, ev string, args ...any) {
 	progress.Add(1)
@@ -341,7 +351,10 @@ func (s *Sim) normalize(e rawEvent) {
 		add("LoopSelDone", "ent", s.entID(e.args[1]))
 	case "LoopExit":
 		s.loopExited = true
-		add("LoopExit")
+		s.conn.mu.Lock()
+		fault := s.conn.lastErrOpen // the read that ended the loop failed on an open connection
+		s.conn.mu.Unlock()
+		add("LoopExit", "fault", fault)
 	case "ConnClose":
 		s.closeState = "started"
 		add("CloseStart")
@@ -439,6 +452,15 @@ func (s *Sim) start(c int) {
 			acc := isNil
 			if !isNil {
 				acc = s.dgrams[id-1].kind == "good"
+			}
+			s.mu.Lock()
+			reenter := s.closeIn[role]
+			delete(s.closeIn, role)
+			s.mu.Unlock()
+			if reenter {
+				// the matcher has seen enough and shuts the client down from inside the call: Close returns all the same
+				s.api.Close()
+				s.record("closer", "CloseReturn")
 			}
 			s.record(role, "Match", id, acc)
 			return acc
@@ -550,6 +572,37 @@ func (s *Sim) closeStart() {
 		s.record("closer", "CloseReturn")
 	}()
 	s.wait("closer")
+}
+
+// canCloseFrom: caller c has just taken a datagram out of its channel and is about to hand it to its matcher, Close has not
+// been called, and the receive loop sits in ReadFrom (it carries no datagram that it could still want to deliver)
+func (s *Sim) canCloseFrom(role string) bool {
+	return s.closeState == "" && !s.cfg.NilMatch && s.parkedAt(role) == "Wake" && !s.needProceed[role] && s.lastWoken[role] > 0 &&
+		s.parkedAt("loop") == "" && !s.loopHolds && s.pendingRx == nil
+}
+
+// closeFrom: the next thing caller role does is call Close from its matcher
+func (s *Sim) closeFrom(role string) {
+	nCloseFrom.Add(1)
+	s.closeState = "starting"
+	s.mu.Lock()
+	s.closeIn[role] = true
+	s.mu.Unlock()
+	s.release(role)
+}
+
+// readFault: the next ReadFrom on the open connection (the one the loop is blocked in, if it is) fails
+func (s *Sim) readFault() {
+	nReadFault.Add(1)
+	s.readFaults++
+	s.conn.mu.Lock()
+	s.conn.readFail = true
+	s.conn.mu.Unlock()
+	select {
+	case s.conn.wake <- struct{}{}:
+	default:
+	}
+	s.wait("loop")
 }
 
 // closeAgain: Close is called once more (by another owner of the client, by a deferred call): it must come back at once,
@@ -698,7 +751,7 @@ func (s *Sim) abort() {
 
 func (s *Sim) JSON(id int) []byte {
 	cfg := map[string]any{"T": s.cfg.T, "tries": s.cfg.Tries, "bufcap": s.cfg.BufCap, "v4": s.cfg.V4, "xid": s.cfg.Xid,
-		"urgent": s.cfg.Urgent, "timed": s.cfg.Timed, "mode": s.cfg.Mode, "wfault": s.cfg.WFault, "errkind": s.cfg.ErrKind, "dest": s.cfg.Dest, "raw": s.cfg.Raw}
+		"urgent": s.cfg.Urgent, "timed": s.cfg.Timed, "mode": s.cfg.Mode, "wfault": s.cfg.WFault, "rfault": s.cfg.RFault, "errkind": s.cfg.ErrKind, "dest": s.cfg.Dest, "raw": s.cfg.Raw}
 	b, err := json.Marshal(map[string]any{"id": id, "cfg": cfg, "ev": s.trace})
 	if err != nil {
 		panic(err)
@@ -714,6 +767,8 @@ type fakeConn struct {
 	q      []*dgram
 	wake   chan struct{}
 	closed bool
+	readFail    bool // the next read on the open connection fails
+	lastErrOpen bool // the last error ReadFrom returned was returned while the connection was open
 	dest   *net.UDPAddr
 	down   bool            // the link is down: every write fails
 	failNext map[string]bool // per role: the next write fails (schedules chosen by TLC)
@@ -736,6 +791,39 @@ func sameUDPAddr(a net.Addr, want *net.UDPAddr) bool {
 
 var errClosed = errors.New("use of closed network connection")
 
+type customErr struct{ msg string }
+
+func (e *customErr) Error() string { return e.msg }
+
+// readErr: what a connection can report from ReadFrom - package net's text, the errors of files, pipes and userspace stacks
+// once they are closed, and what an open socket reports when the network pushes back
+func readErr(kind int, closed bool) error {
+	if closed {
+		switch kind % 6 {
+		case 1:
+			return &net.OpError{Op: "read", Net: "udp", Err: net.ErrClosed}
+		case 2:
+			return &os.PathError{Op: "read", Path: "packet", Err: os.ErrClosed}
+		case 3:
+			return io.EOF
+		case 4:
+			return io.ErrClosedPipe
+		case 5:
+			return &customErr{"endpoint is closed for receive"}
+		}
+		return errClosed
+	}
+	switch kind % 4 {
+	case 1:
+		return &net.OpError{Op: "read", Net: "udp", Err: &os.SyscallError{Syscall: "recvfrom", Err: syscall.ECONNREFUSED}}
+	case 2:
+		return io.EOF
+	case 3:
+		return &net.OpError{Op: "read", Net: "packet", Err: &os.SyscallError{Syscall: "recvfrom", Err: syscall.ENETDOWN}}
+	}
+	return &customErr{"read: input/output error"}
+}
+
 func newFakeConn(s *Sim) *fakeConn {
 	return &fakeConn{s: s, wake: make(chan struct{}, 1), failNext: map[string]bool{}, destFor: map[string]*net.UDPAddr{}}
 }
@@ -757,8 +845,15 @@ func (f *fakeConn) ReadFrom(b []byte) (int, net.Addr, error) {
 	for {
 		f.mu.Lock()
 		if f.closed {
+			f.lastErrOpen = false
 			f.mu.Unlock()
-			return 0, nil, errClosed
+			return 0, nil, readErr(f.s.cfg.ReadErrKind, true)
+		}
+		if f.readFail {
+			f.readFail = false
+			f.lastErrOpen = true
+			f.mu.Unlock()
+			return 0, nil, readErr(f.s.cfg.ReadErrKind, false)
 		}
 		if len(f.q) > 0 {
 			d := f.q[0]
